@@ -5,9 +5,9 @@
    on_task). *)
 From Coq Require Import List Arith ZArith Bool.
 Import ListNotations.
-From Acts.Gen Require Import GenState GenUpdate.
+From Acts.Gen Require Import GenState GenOnTask.
 From Acts.Model Require Import Engine Tree Oracles.
-From Acts.Proofs Require Import EngineLemmas Findings ReviveInv LogInv C02Ops FinalProofs UpdateTable.
+From Acts.Proofs Require Import EngineLemmas Findings ReviveInv LogInv C02Ops FinalProofs StatePred OnTask.
 
 (* full statement (false): forall w ops e t s, go w ops = Some e -> is_completed s = true -> msgs e t s <= 1 *)
 Theorem C08_once_refuted : exists w ops e t, go w ops = Some e /\ msgs e t SCompleted = 2.
@@ -19,7 +19,7 @@ Theorem C08_partial_gate : forall e i, msg_allowed e i = true ->
   st e i <> SPending /\ st e i <> SRunning /\ t_silent (tk e i) = false.
 Proof. exact msg_gate. Qed.
 
-(* the gate and the order of the on_task handler, statically tied to the source: gen/GenUpdate.v is regenerated from
+(* the gate and the order of the on_task handler, statically tied to the source: gen/GenOnTask.v is regenerated from
    runtime.rs on every run (`on_task_gate_not`: the state predicates that block the message, next to `is_emit_disabled`;
    `on_task_order`: store write, lifecycle hooks, gate, message built, message sent, by position in the handler).  The
    model's gate is the gate of that table, read through the state predicates regenerated from state.rs, and the model's
